@@ -79,7 +79,7 @@ fn gen_template(rng: &mut Rng) -> Tpl {
 
 fn mutate_bytes(rng: &mut Rng, b: &mut Vec<u8>) -> &'static str {
     const INTERESTING: [u8; 20] = [0x00, 0x01, 0x02, 0x4b, 0x4c, 0x4d, 0x4e, 0x4f, 0x50, 0x51, 0x60, 0x61, 0x63, 0x64, 0x67, 0x68, 0x75, 0x80, 0x81, 0xff];
-    match rng.below(9) {
+    match rng.below(10) {
         0 if !b.is_empty() => { let i = rng.below(b.len() as u64) as usize; b[i] ^= 1u8 << rng.below(8); "flip" }
         1 => { let i = rng.below(b.len() as u64 + 1) as usize; b.insert(i, *rng.pick(&INTERESTING)); "insert" }
         2 if !b.is_empty() => { let i = rng.below(b.len() as u64) as usize; b.remove(i); "delete" }
@@ -102,6 +102,14 @@ fn mutate_bytes(rng: &mut Rng, b: &mut Vec<u8>) -> &'static str {
             let (at, len) = *rng.pick(&ps);
             if rng.chance(1, 2) { b[at] += 1; b.insert(at + 1 + len, *rng.pick(&[0x00u8, 0x80])); "numpad" }
             else { b[at + len] |= 0x80; "numneg" }
+        }
+        8 => {
+            // a pushed script number replaced by a single opcode (a non-PushNum opcode must not read as a number)
+            let ps: Vec<(usize, usize)> = direct_pushes(b).into_iter().filter(|p| p.1 <= 5).collect();
+            if ps.is_empty() { return "none"; }
+            let (at, len) = *rng.pick(&ps);
+            b.splice(at..at + 1 + len, [*rng.pick(&[0x61u8, 0x76, 0x50, 0x4f, 0x51, 0x60, 0x00, 0xb1, 0x6a])]);
+            "numop"
         }
         _ => "none",
     }
@@ -144,7 +152,7 @@ impl Group for C04Parse {
          re-encoded as OP_PUSHDATA1/2/4 incl. wrong lengths, non-minimal / sign-bit script numbers); a case is non-trivial when it contains \
          accepted scripts of at least two kinds and a refused one"
     }
-    fn budget(&self, tier: Tier) -> usize { if tier == Tier::Quick { 150 } else { 3000 } }
+    fn budget(&self, tier: Tier) -> usize { if tier == Tier::Quick { 250 } else { 3000 } }
     fn gen_case(&self, rng: &mut Rng, _tier: Tier) -> Vec<String> {
         let live = match fresh_base(&base_setup('s'), &dummy_content()) { Ok(l) => l, Err(_) => return vec!["keys - -".into()] };
         let kt = key_tab(&live.holder, &make_test_pubkey(10));
